@@ -35,6 +35,9 @@ func propC11(c *Ctx, r *Report) {
 	r.Clauses = append(r.Clauses, innerFirstClause+" - otherwise const_assert and case selectors are judged against the shadowed module-scope constant")
 	c.runInnerFirst(r, "lookup.innerfirst", "wgsl/internal/lower", nil)
 	r.floor("lookup.innerfirst", 2)
+	r.Clauses = append(r.Clauses, nameDefaultClause)
+	c.runNameSilentDefault(r, "name.silentdefault", "wgsl/internal/lower", nil)
+	r.floor("name.silentdefault", 5)
 	r.floor("errflow.usertype-lookups", 20)
 	r.Clauses = append(r.Clauses, argsRoleClause)
 	c.runArgsNameRole(r, "args.namerole", inPkgs("wgsl", "ir"))
@@ -58,3 +61,5 @@ func propC11(c *Ctx, r *Report) {
 }
 
 var droppedErrExceptions = map[string]string{}
+
+const nameDefaultClause = "unknown names are refused (E91): a lowerer function that translates a name written in the source into an IR enumerant (table lookup or switch over the spelling) and whose fall-through answer is an ordinary enumerant reports the unknown name through addError - a misspelt builtin value, address space, access mode, texel format or sampled type is an undeclared identifier, not the default"
